@@ -174,19 +174,33 @@ def run_cell(cfg, cx):
                 per_step[b, t] = acc * Fraction(1, npx)
         got_none = I.sym_call(lambda xb, yb: ml.timestep_smse_loss(mk(xb), mk(yb), steps, reduce=None), x, y)
         cx.equal("timestep[None]", got_none, per_step, key=f"steps:none:{ckey}",
-                 replay=lambda vals, bvals: (True, "per-timestep loss differs from its definition"))
+                 replay=lambda vals, bvals: cx.deviates(np.asarray(ml.timestep_smse_loss(mk({q: jnp.asarray(cx.conc(v, vals)) for q, v in x.items()}),
+                                                                                              mk({q: jnp.asarray(cx.conc(v, vals)) for q, v in y.items()}), steps, reduce=None)),
+                                                        cx.expected(per_step, vals)))
         got_mean = I.sym_call(lambda xb, yb: ml.timestep_smse_loss(mk(xb), mk(yb), steps), x, y)
         cx.equal("timestep[mean]", got_mean, np.array([sum(per_step[:, t], S.ZERO) * Fraction(1, batch) for t in range(steps)], dtype=object),
-                 key=f"steps:mean:{ckey}", replay=lambda vals, bvals: (True, "per-timestep mean loss differs from its definition"))
+                 key=f"steps:mean:{ckey}",
+                 replay=lambda vals, bvals: cx.deviates(np.asarray(ml.timestep_smse_loss(mk({q: jnp.asarray(cx.conc(v, vals)) for q, v in x.items()}),
+                                                                                              mk({q: jnp.asarray(cx.conc(v, vals)) for q, v in y.items()}), steps)),
+                                                        cx.expected(per_step, vals).mean(axis=0)))
         tot = I.sym_call(lambda xb, yb: ml.smse_loss(mk(xb), mk(yb), reduce=None), x, y)
         cx.equal("sum over steps == total", np.array([sum(got_none.a[b], S.ZERO) for b in range(batch)], dtype=object), tot,
-                 key=f"steps:sum:{ckey}", replay=lambda vals, bvals: (True, "sum over steps of the per-timestep loss differs from smse_loss"))
+                 key=f"steps:sum:{ckey}",
+                 replay=lambda vals, bvals: cx.deviates(
+                     np.asarray(ml.timestep_smse_loss(mk({q: jnp.asarray(cx.conc(v, vals)) for q, v in x.items()}),
+                                                      mk({q: jnp.asarray(cx.conc(v, vals)) for q, v in y.items()}), steps, reduce=None)).sum(axis=1),
+                     np.asarray(ml.smse_loss(mk({q: jnp.asarray(cx.conc(v, vals)) for q, v in x.items()}),
+                                             mk({q: jnp.asarray(cx.conc(v, vals)) for q, v in y.items()}), reduce=None))))
         # reduce='max': the row of the batch entry with the largest total (ties assumed away)
         got_max = I.sym_call(lambda xb, yb: ml.timestep_smse_loss(mk(xb), mk(yb), steps, reduce="max"), x, y)
         totals = [sum(per_step[b], S.ZERO) for b in range(batch)]
         for b in range(batch):
             assum = [S.lt(totals[o], totals[b]) for o in range(batch) if o != b]
-            cx.equal(f"timestep[max] when entry {b} is largest", got_max, per_step[b], assumptions=assum, key=f"steps:max:{b}:{ckey}")
+            cx.equal(f"timestep[max] when entry {b} is largest", got_max, per_step[b], assumptions=assum, key=f"steps:max:{b}:{ckey}",
+                     replay=lambda vals, bvals, b=b: cx.deviates(
+                         np.asarray(ml.timestep_smse_loss(mk({q: jnp.asarray(cx.conc(v, vals)) for q, v in x.items()}),
+                                                          mk({q: jnp.asarray(cx.conc(v, vals)) for q, v in y.items()}), steps, reduce="max")),
+                         cx.expected(per_step[b], vals)))
         cx.canary("canary[timestep None transposed]", got_none, per_step[::-1] if batch > 1 else per_step * 2)
         return
 
